@@ -6,8 +6,9 @@ import GoflowModel.Gen.Consts
 
 Numbers (this file, proved): every decimal the implementation can hold renders
 (`Decimal.String()`) to text that `newXNumberFromString` accepts and converts back to a number
-with the same normal form, for every sign, coefficient and exponent; renderings are canonical
-(equal normal forms render equally), which is what `=` on numbers relies on.
+with the same normal form, for every sign, coefficient and exponent (`num_roundtrip`); renderings are
+canonical in both directions — equal renderings mean equal numbers (`render_injective`) and equal
+numbers render equally (`render_canonical`) — which is what `=` on numbers relies on.
 Dates, times and JSON are decided by the monitors and the function-level correspondence
 (`envs.DateTimeFromString`, `XDateTime.Format`, `JSONToXValue`/`ToXJSON`); they are not theorems
 in this revision.
@@ -238,6 +239,98 @@ theorem num_roundtrip_zero (e : Int) :
       rw [← List.replicate_succ']; exact trimTrailing_all_zero (n + 1)
     simp [this]
 
+
+/-- trailing zeros of the coefficient can be moved into the exponent without changing the text -/
+theorem render_zeros_shift (neg : Bool) (c : List Char) (hc : NZ c) (hl : c.getLast? ≠ some '0') (i : Nat) (e : Int) :
+    render ⟨neg, c ++ List.replicate i '0', e⟩ = render ⟨neg, c, e + i⟩ := by
+  have hz : ∀ x ∈ List.replicate i '0', isDigit x = true := by
+    intro x hx; rw [List.mem_replicate] at hx; rw [hx.2]; decide
+  have hci := hc.append _ hz
+  -- the sign is decided by the same test on both sides
+  have hs1 : trimLeadingZeros (c ++ List.replicate i '0') ≠ [] := by rw [hci.trimLeading]; exact hci.ne
+  have hs2 : trimLeadingZeros c ≠ [] := by rw [hc.trimLeading]; exact hc.ne
+  suffices hb : render ⟨false, c ++ List.replicate i '0', e⟩ = render ⟨false, c, e + i⟩ by
+    cases neg with
+    | false => exact hb
+    | true =>
+      simp only [render, hs1, hs2, ne_eq, not_false_eq_true, and_self, if_true, Bool.false_eq_true, false_and, if_false] at hb ⊢
+      rw [hb]
+  simp only [render, Bool.false_eq_true, false_and, if_false, hs1, hs2]
+  by_cases he : e ≥ 0
+  · -- both are integers
+    have he2 : e + i ≥ 0 := by omega
+    simp only [he, he2, if_true]
+    rw [List.append_assoc, List.replicate_append_replicate]
+    congr 2
+    omega
+  · simp only [he, if_false]
+    have hk : (((-e).toNat : Nat) : Int) = -e := Int.toNat_of_nonneg (by omega)
+    generalize hkk : (-e).toNat = k at hk
+    have hk1 : k ≥ 1 := by omega
+    by_cases hei : e + i ≥ 0
+    · -- the zeros reach the decimal point: an integer on both sides
+      have hki : k ≤ i := by omega
+      have hlen : (c ++ List.replicate i '0').length > k := by
+        have := hc.ne; have : c.length ≥ 1 := by cases c <;> simp_all
+        simp only [List.length_append, List.length_replicate]; omega
+      simp only [hei, hlen, if_true]
+      have e1 : (c ++ List.replicate i '0').length - k = c.length + (i - k) := by
+        simp only [List.length_append, List.length_replicate]; omega
+      have hsplit : c ++ List.replicate i '0' = (c ++ List.replicate (i - k) '0') ++ List.replicate k '0' := by
+        rw [List.append_assoc, List.replicate_append_replicate]; congr 2; omega
+      have htake : (c ++ List.replicate i '0').take ((c ++ List.replicate i '0').length - k) = c ++ List.replicate (i - k) '0' := by
+        rw [e1]; conv => lhs; rw [hsplit]
+        rw [List.take_append_of_le_length (by simp)]
+        rw [List.take_of_length_le (by simp)]
+      have hdrop : (c ++ List.replicate i '0').drop ((c ++ List.replicate i '0').length - k) = List.replicate k '0' := by
+        rw [e1]; conv => lhs; rw [hsplit]
+        rw [List.drop_append_of_le_length (by simp)]
+        rw [List.drop_of_length_le (by simp)]; simp
+      rw [htake, hdrop, trimTrailing_all_zero]
+      simp only [if_true]
+      congr 2; omega
+    · -- a fraction on both sides
+      simp only [hei, if_false]
+      have hk' : (((-(e + i)).toNat : Nat) : Int) = -(e + i) := Int.toNat_of_nonneg (by omega)
+      generalize hkk' : (-(e + (i : Int))).toNat = k' at hk'
+      have hkk2 : k = k' + i := by omega
+      by_cases hlen : c.length > k'
+      · have hlen1 : (c ++ List.replicate i '0').length > k := by
+          simp only [List.length_append, List.length_replicate]; omega
+        simp only [hlen, hlen1, if_true]
+        have e1 : (c ++ List.replicate i '0').length - k = c.length - k' := by
+          simp only [List.length_append, List.length_replicate]; omega
+        have htake : (c ++ List.replicate i '0').take (c.length - k') = c.take (c.length - k') := by
+          rw [List.take_append_of_le_length (by omega)]
+        have hdrop : (c ++ List.replicate i '0').drop (c.length - k') = c.drop (c.length - k') ++ List.replicate i '0' := by
+          rw [List.drop_append_of_le_length (by omega)]
+        rw [e1, htake, hdrop, trimTrailing_append_zeros]
+      · have hlen1 : ¬ (c ++ List.replicate i '0').length > k := by
+          simp only [List.length_append, List.length_replicate]; omega
+        simp only [hlen, hlen1, if_false]
+        have e1 : k - (c ++ List.replicate i '0').length = k' - c.length := by
+          simp only [List.length_append, List.length_replicate]; omega
+        rw [e1, ← List.append_assoc, trimTrailing_append_zeros]
+
+/-- **Equal numbers render equally** (what `=` relies on): two non-zero numbers with the same
+normal form have the same text. -/
+theorem render_canonical (a b : Dec) (ha : NZ a.digits) (hb : NZ b.digits) (h : norm a = norm b) :
+    render a = render b := by
+  have key : ∀ (d : Dec), NZ d.digits → render d = render (norm d) := by
+    intro d hd
+    obtain ⟨neg, ds, e⟩ := d
+    rw [norm_nz neg ds e hd]
+    have hdec := trim_decomp ds
+    have hnz : NZ (trimTrailingZeros ds) := by
+      refine ⟨hd.trim_ne, digits_of_mem_trim ds hd.dig, ?_⟩
+      have hh := hd.head
+      cases htr : trimTrailingZeros ds with
+      | nil => exact absurd htr hd.trim_ne
+      | cons x r => rw [hdec, htr] at hh; simpa using hh
+    have := render_zeros_shift neg (trimTrailingZeros ds) hnz (trim_last_ne ds) (trailingZeros ds) e
+    rw [← hdec] at this
+    exact this
+  rw [key a ha, key b hb, h]
 
 /-- **Round trip of every number** the implementation can hold. -/
 theorem num_roundtrip (d : Dec) (h : WellFormed d) :
